@@ -53,6 +53,15 @@ def well_formed_json(c):
             ('observation-specs-are-objects', Q([('o', I)], lambda o: z3.Implies(obs.count(o) > 0, o > 0)))]
 
 
+def positive_speeds(c):
+    """ASSUMPTION ON THE INPUT: configured machine speeds and bandwidths are positive, the timestep factor is positive"""
+    res = c.o.self.cluster['system']['resources']
+    H = lambda f, k: z3.Select(c.o.heap('MachineSpec', f), z3.Select(res.vals, k))
+    return [('configured-speeds-positive', Q([('k', I)], lambda k: z3.Implies(z3.Select(res.keys, k), z3.And(
+        H('flops', k) > 0, H('compute_bandwidth', k) > 0)))),
+            ('timestep-factor-positive', mult(unit(c)) > 0)]
+
+
 # ---- cluster section ------------------------------------------------------------------------------------------
 def cluster_body(c):
     n = c.n
@@ -79,7 +88,7 @@ def cluster_inv(c):
 
 
 REG.contract('Config.parse_cluster_config', world=config_world, params={},
-    requires=well_formed_json,
+    requires=lambda c: well_formed_json(c) + positive_speeds(c),
     ensures=lambda c: [('one-machine-per-entry', c.result[0].n == c.o.self.cluster['system']['resources'].nk),
                        ('machines-distinct', Q([('m', I)], lambda m: z3.And(c.result[0].count(m) <= 1, z3.Implies(c.result[0].count(m) > 0, m > 0)))),
                        ('C16-system-bandwidth-scaled', c.result[1].t == c.o.self.cluster['system']['system_bandwidth'].t * mult(unit(c)))],
